@@ -108,11 +108,19 @@ def do_minify_rule(S: bytes, m: str, force_set: bool, force_val: str) -> bool:
     environ = {'PYMINIFY_FORCE_BEST_EFFORT': force_val} if force_set else {}
     env = Env(environ=environ)
     args = namespace(['a.py'])
-    with env.installed(minify=lambda source, **kw: m) as main_mod:
+    seen = []
+
+    def fake_minify(source, **kw):
+        seen.append(source)
+        return m
+
+    with env.installed(minify=fake_minify) as main_mod:
         try:
             r = main_mod.do_minify(S, 'a.py', args)
         except main_mod.MinificationNotBeneficialError:
-            return (not (force_set and force_val != '')) and len(mb) > len(S)
+            return (not (force_set and force_val != '')) and len(mb) > len(S) and len(seen) == 1 and seen[0] == S
+    if not (len(seen) == 1 and seen[0] == S):
+        return False    # the API must be given exactly the bytes that were read (any encoding, any line ending)
     if force_set and force_val != '':
         return r == mb
     return r == mb and len(mb) <= len(S)
